@@ -673,6 +673,7 @@ def execute(program, ctx, mode):
             cands = [l for l in L if l not in used and kind[l] in ('decl', 'prov')]
             if cands:
                 l = cands[op['n'] % len(cands)]
+                label.pop(id(node[l]), None)     # the address may be reused once the object is collected
                 node[l] = None
                 keep[l] = None
                 ctx.fault('drop')
@@ -685,7 +686,9 @@ def execute(program, ctx, mode):
             # then every specification that had the old one as a base is re-based onto the new one, then the old one is dropped.
             L = live()
             cands = [l for l in L if kind[l] == 'I']
-            if not cands or strict_env:
+            # only in interface-only worlds: an instance declaration made with the old object stays in the
+            # InstanceDeclarations cache under a key that the new, equal-named object also matches
+            if not cands or strict_env or any(kind[l] != 'I' for l in order):
                 continue
             s = cands[op['n'] % len(cands)]
             old_bases = list(bases_of[s])
@@ -699,6 +702,7 @@ def execute(program, ctx, mode):
                 nb = [s2 if b == s else b for b in bases_of[d]]
                 node[d].__bases__ = tuple(node[b] for b in nb)
                 bases_of[d] = nb
+            label.pop(id(node[s]), None)
             node[s] = None
             keep[s] = None
             ctx.probe('interface-reloaded')
